@@ -47,12 +47,12 @@ try:
                 print('/repo is not clean; refusing to apply the patch in place'); sys.exit(3)
             subprocess.run(['git', '-C', '/repo', 'apply', '--whitespace=nowarn', patch], check=True)
             try:
-                r = subprocess.run(['/verif/.work/bin/vbuild', '-variant', variant, '-o', out], env=env, capture_output=True, text=True)
+                r = subprocess.run(['/verif/.work/bin/vbuild', '-variant', variant, '-suffix', f'-{os.getpid()}', '-o', out], env=env, capture_output=True, text=True)
             finally:
                 subprocess.run(['git', '-C', '/repo', 'checkout', '--', '.'], check=True)
                 subprocess.run(['git', '-C', '/repo', 'clean', '-fdq'], check=True)
         else:
-            r = subprocess.run(['/verif/.work/bin/vbuild', '-variant', variant, '-o', out] + margs, env=env, capture_output=True, text=True)
+            r = subprocess.run(['/verif/.work/bin/vbuild', '-variant', variant, '-suffix', f'-{os.getpid()}', '-o', out] + margs, env=env, capture_output=True, text=True)
         if r.returncode != 0:
             print(f'BUILD FAILED ({variant}):', r.stderr[-1500:])
             built[variant] = None
@@ -84,4 +84,6 @@ try:
             os.remove(b)
 finally:
     subprocess.run(['git', '-C', '/repo', 'worktree', 'remove', '--force', wt])
-    shutil.rmtree('/verif/.work/overlay-base-mut', ignore_errors=True)
+    for v in ('base', 'sched', 'race'):
+        shutil.rmtree(f'/verif/.work/overlay-{v}-{os.getpid()}', ignore_errors=True)
+        shutil.rmtree(f'/verif/.work/overlay-{v}-{os.getpid()}-mut', ignore_errors=True)
